@@ -1,0 +1,66 @@
+//go:build verif
+
+package proto
+
+// C19 (partial): the type-string helpers are panic-free for every string, and the compatibility
+// relation ColumnType.Conflicts is reflexive and symmetric.
+// (comment-only; read by /verif/govc)
+
+//@ import strings strings
+
+// ---------------------------------------------------------------------------
+// strings.IndexByte / LastIndexByte (assumed, stdlib): -1, or the position of an occurrence; as
+// deterministic functions of the string (the same string gives the same answer)
+
+//@ spec func idxByte(a Bytes, n Int, c Int) Int
+//@ spec func lastIdxByte(a Bytes, n Int, c Int) Int
+//@ assume contract strings.IndexByte(s, c) (r)
+//@   ensures r == idxByte(arrayof(s), len(s), c) && -1 <= r && r < len(s) && len(s) <= 9223372036854775807
+//@   ensures r >= 0 ==> s[r] == c
+//@ assume contract strings.LastIndexByte(s, c) (r)
+//@   ensures r == lastIdxByte(arrayof(s), len(s), c) && -1 <= r && r < len(s) && len(s) <= 9223372036854775807
+//@   ensures r >= 0 ==> s[r] == c
+
+// ---------------------------------------------------------------------------
+// Base / Elem: no slice is ever taken out of range, for any string; results are functions of the
+// argument (needed to compare two runs of Conflicts)
+
+//@ spec func baseArr(a Bytes, n Int) Bytes
+//@ spec func baseLen(a Bytes, n Int) Int
+//@ spec func elemArr(a Bytes, n Int) Bytes
+//@ spec func elemLen(a Bytes, n Int) Int
+
+//@ contract (c ColumnType) Base() (r) props(C19)
+//@   ensures len(r) <= len(c) [C19] {a-prefix-length}
+//@   ensures [abstract] arrayof(r) == baseArr(arrayof(c), len(c)) && len(r) == baseLen(arrayof(c), len(c))
+//@ contract (c ColumnType) Elem() (r) props(C19)
+//@   ensures len(r) <= len(c) [C19] {a-substring-length}
+//@   ensures [abstract] arrayof(r) == elemArr(arrayof(c), len(c)) && len(r) == elemLen(arrayof(c), len(c))
+
+//@ spec func ddArr(a Bytes, n Int) Bytes
+//@ spec func ddLen(a Bytes, n Int) Int
+//@ spec func ncArr(a Bytes, n Int) Bytes
+//@ spec func ncLen(a Bytes, n Int) Int
+//@ -- decimalDowncast / normalizeCommas go through strings.Cut/TrimSpace/Split/Join and strconv.Atoi:
+//@ -- their results are assumed to be functions of the argument; their bodies are checked for safety
+//@ contract (c ColumnType) decimalDowncast() (r) props(C19)
+//@   ensures [abstract] arrayof(r) == ddArr(arrayof(c), len(c)) && len(r) == ddLen(arrayof(c), len(c))
+//@ contract (c ColumnType) normalizeCommas() (r) props(C19)
+//@   ensures [abstract] arrayof(r) == ncArr(arrayof(c), len(c)) && len(r) == ncLen(arrayof(c), len(c))
+//@ loop 0 (elems, rangeindex)
+//@   invariant -1 <= rangeindex && rangeindex < 140737488355328
+
+// ---------------------------------------------------------------------------
+// Symmetry of Conflicts by structural induction: both orders are executed on the same pair
+// (the body of Conflicts is unfolded twice), the recursive call on the element types is replaced
+// by the contract result typeConflicts(...), for which symmetry is the induction hypothesis
+// (element types are strictly shorter strings: Elem() drops at least the parentheses).
+
+//@ axiom typeConflicts_IH when typeConflicts: forall a:Bytes, b:Bytes, an, bn :: trigger(typeConflicts(a, an, b, bn), typeConflicts(a, an, b, bn) == typeConflicts(b, bn, a, an))
+
+//@ contract lemmaConflictsSymmetric(a, b) (x, y) props(C19)
+//@   unfold (ColumnType).Conflicts
+//@   ensures x == y [C19] {conflicts-is-symmetric}
+//@ contract lemmaConflictsReflexive(a) (x) props(C19)
+//@   unfold (ColumnType).Conflicts
+//@   ensures !x [C19] {conflicts-is-reflexive}
